@@ -194,7 +194,7 @@ def run_property(prop, tier, fx, fx_nd):
     mod = importlib.import_module("rules." + prop.lower())
     ctx = Ctx(prop, tier, fx, fx_nd)
     ctx.inline_set = inline_set(mod, fx)
-    ctx.desugar = bool(getattr(mod, "DESUGAR", False))
+    ctx.desugar = bool(getattr(mod, "DESUGAR", bool(os.environ.get("VERIF_DESUGAR_ALL"))))
     mod.run(ctx)
     if ctx.inlined:
         ctx.note("helpers not present when the rules were written, inlined at their call sites: %s" % ", ".join(sorted(ctx.inlined)))
@@ -202,7 +202,7 @@ def run_property(prop, tier, fx, fx_nd):
     if tier == "thorough" and fx_nd is not None and getattr(mod, "CONFIG_SENSITIVE", True):
         ctx2 = Ctx(prop, tier, fx_nd, None, config="nodefault")
         ctx2.inline_set = inline_set(mod, fx_nd)
-        ctx2.desugar = bool(getattr(mod, "DESUGAR", False))
+        ctx2.desugar = bool(getattr(mod, "DESUGAR", bool(os.environ.get("VERIF_DESUGAR_ALL"))))
         try:
             mod.run(ctx2)
         except Exception:
